@@ -188,7 +188,14 @@ func runC04(t *testing.T, c *Case, o RunOpts) *Result {
 		var recLines []int
 		for _, rec := range sp.Recs {
 			if sp.Format == "fasta" {
-				recLines = append(recLines, 1+(len(rec.Letters)+sp.Width-1)/sp.Width)
+				nl := 0
+				if n := len(rec.Letters); n > 0 {
+					nl = 1
+					if sp.Width < n {
+						nl = (n + sp.Width - 1) / sp.Width
+					}
+				}
+				recLines = append(recLines, 1+nl)
 			} else {
 				recLines = append(recLines, 4)
 			}
